@@ -29,7 +29,7 @@ CHECKS = {
             "6/C09"),
     "C03": ("world", "exploration",
             "two real clients + local watchers in a synctest bubble on a simulated bus and a strict reference ledger; seeded scenarios x keyed schedules; payouts vs. last commonly enabled state",
-            "Whole-system simulation: real client.Client, real local watcher, simulated bus, strict ledger (verifies signatures, tree shapes, challenge period on the fake clock, pays once). Scenarios draw assets, balances, funding agreement, accepted/rejected payments, sub-channel open/pay/close, final vs. dispute settlement, who settles first; schedules come from keyed delays at every seam and yield hooks. After both sides settled: account = before - agreed funding + balance in the last state both enabled (open sub-channels included), nothing held, conservation after every ledger mutation.",
+            "Whole-system simulation: real client.Client, real local watcher, simulated bus, strict ledger (verifies signatures, tree shapes, challenge period on the fake clock, pays once). Scenarios draw assets, balances, funding agreement, accepted/rejected payments, sub-channel open/pay/close, final vs. dispute settlement, who settles first; schedules come from keyed delays at every seam and yield points (hand-placed hooks plus automatically injected ones at the lock boundaries of a scratch copy). After both sides settled: account = before - agreed funding + balance in the last state both enabled (open sub-channels included), nothing held, conservation after every ledger mutation.",
             "The strict ledger's contract (DESIGN 3.2) is a design decision; sub-channels only under no-app parents (the payment app forbids the funding update); a Settle call that fails because registered events of the tree have not all arrived is repeated by the driver, as a user would (counted as probe).",
             "6/C03"),
     "C04": ("world", "exploration",
@@ -38,7 +38,7 @@ CHECKS = {
             "Ledger latencies are bounded so that five refutation rounds fit into the challenge period (the protocol's own assumption). Refutations do not extend the challenge period in the reference ledger.",
             "6/C04"),
     "C06": ("world", "exploration",
-            "two real clients in a synctest bubble; seeded update programs (sequential, concurrent, several channels) x keyed schedules and yield hooks; agreement oracle over Enabled/SigAdded streams; token-configuration liveness",
+            "two real clients in a synctest bubble; seeded update programs (sequential, concurrent, several channels) x keyed schedules and yield points (hand-placed hooks plus automatically injected ones at the lock boundaries of a scratch copy); agreement oracle over Enabled/SigAdded streams; token-configuration liveness",
             "Programs of up to 15 Channel.Update calls from either side on 1-3 channels with keyed accept/reject decisions; strict runs check success => both enabled the proposed state fully signed, rejection => never enabled, no fork, version gap <= 1, accept => enabled, both Acting + probe update; the token configuration additionally forbids any timeout (a lost reply inside the client). Loss, duplication and short contexts run in a separate relaxed configuration that only checks the fully-signed invariant, as the property says.",
             "Exactly-once delivery in strict configurations is go-perun's stated assumption about the bus. Same-instant wake-ups are ordered by the Go runtime, not by the seed (measured by the determinism self-test: 0 diverging of 480 runs x 3 executions).",
             "6/C06"),
@@ -68,27 +68,27 @@ CHECKS = {
             "The adversary's address is served by a real client that answers probes honestly but never sync messages (two clients running the library's sync handler bounce replies forever; noted in DESIGN). Runs are capped at 20000 seam events.",
             "6/C12"),
     "C13": ("link", "fault_enumeration",
-            "truncation at every offset, bit flips, length/count/backend-id/type field overwrites, splices and random bytes on the decoders' input stream; protobuf-level structural mutations; child processes under an address-space limit",
-            "Well-formed encodings of every wire type are corrupted by link/disk style faults (all truncation offsets enumerated for messages up to 2 KiB, others sampled) and fed to the native and protobuf envelope decoders and each value decoder. Oracle: a value or an error, never a panic, never a dead decoder process (out-of-memory under a 32 GiB address space limit counts); successful decodes respect the documented limits; dimension fields above the limit are rejected.",
+            "truncation at every offset, bit flips, length/count/backend-id/type field overwrites, splices and random bytes on the decoders' input stream; protobuf-level structural mutations; child processes under an address-space limit; race-detector pass with 4-8 concurrent decoders",
+            "Well-formed encodings of every wire type are corrupted by link/disk style faults (all truncation offsets enumerated for messages up to 2 KiB, others sampled) and fed to the native and protobuf envelope decoders and each value decoder. Oracle: a value or an error, never a panic, never a dead decoder process (out-of-memory under a 32 GiB address space limit counts); successful decodes respect the documented limits; dimension fields above the limit are rejected. Second pass: the engine is rebuilt with -race and valid states whose app is found by a predicate resolver are decoded on 4-8 goroutines at once (one decoder per connection is how the client runs); every decode must succeed and any data race in the decoders' shared tables is a violation.",
             "Value shapes are seeded input generation (stated in the evidence rule). The 32 GiB threshold is an assumption: no deployment hands that much memory to decoding a message of a few hundred bytes.",
             "6/C13"),
     "C14": ("link", "exploration",
-            "streams of 1-20 concatenated seeded values of every wire type through both serializers; exact consumption, structural equality, byte-stable native re-encoding, signature and ID survival, serializer agreement",
+            "streams of 1-20 concatenated seeded values of every wire type through both serializers; exact consumption, structural equality, byte-stable native re-encoding, signature and ID survival, serializer agreement; 2-3 concurrent senders on slow simulated connections in a synctest bubble",
             "Seeded values of all 17 message types and all serialisable channel values (full shape space of the property) are written back to back on one simulated link and decoded in order; each decode must yield an equal value (harness's own field-by-field comparison), stop exactly at the end of its bytes, re-encode natively to the same bytes, keep signatures verifying and IDs equal; envelopes through protobuf must agree with the native result. The world engines additionally re-serialise every envelope of every run with the run's serializer.",
-            "Input generation, not enumeration. Only backend id 0 exists in this repository, so multi-entry address maps are not exercised.",
+            "Input generation, not enumeration. Wire address maps carry up to three backend ids; wallet address maps only backend id 0 (the only wallet backend of the repository). In a fifth of the runs the envelopes are also encoded by 2-3 goroutines at once, each to its own connection whose writes take keyed simulated time; every connection must carry exactly what its sender sent.",
             "6/C14"),
     "C16": ("link", "fault_enumeration",
             "read/write chunk schedules (single bytes, segments, field boundaries +-1, random partitions, all single splits of short streams) on an open simulated link under wire/net ioConn with both serializers",
-            "1-10 consecutive envelopes are sent with the real ioConn.Send and read with ioConn.Recv under chunking schedules; every envelope must decode, in order, to what was sent, and identically under any two schedules. All single-split positions are enumerated for streams up to 1 KiB, other partitions are sampled.",
+            "1-10 consecutive envelopes (byte fields up to 64 KiB through a blob-data app) are sent with the real ioConn.Send and read with ioConn.Recv under chunking schedules; every envelope must decode, in order, to what was sent, and identically under any two schedules. All single-split positions are enumerated for streams up to 1 KiB, other partitions are sampled. Sender-side fault: a Send of an envelope that cannot be encoded between well-formed ones; exactly the envelopes reported as sent must arrive.",
             "The stream stays open (a reader reporting EOF together with the last bytes is a closed connection, which the native codec treats as an error by design).",
             "6/C16"),
     "C05": ("watcher", "exploration",
-            "the real local watcher on a scripted adjudicator in a synctest bubble; enumerated short action histories x 3 schedules + seeded long histories with racing publishes/events/stops and yield hooks; reference model with explicit may-zones",
+            "the real local watcher on a scripted adjudicator in a synctest bubble; enumerated short action histories x 3 schedules + seeded long histories with racing publishes/events/stops and yield points (hand-placed hooks plus automatically injected ones at the lock boundaries of a scratch copy); reference model with explicit may-zones",
             "Driver actions (start watching parent/sub-channels, publish, inject registered/progressed/concluded events with any version, stop watching, refused stops) are issued with keyed gaps, partly concurrently, with self-caused events on or off and scripted Register failures. Every observable point gets a global number; the oracle checks must-refute, the shape of every Register call (newest parent in the admissible interval, one sub-state per locked sub-allocation in order, archived state for de-registered ones), no spurious registration, relay at-most-once/in-order/always for progressed and concluded, and the refused-stop contract. All histories up to length 5 (quick) / 6 (thorough) with one sub-channel and versions <= 2 are enumerated at 3 schedules each.",
             "The reference model with its may-zones (oracle.go) is the trusted base; workload restrictions are listed in the evidence assumptions. Multi-ledger channels are excluded, as in the property.",
             "6/C05"),
     "C18": ("relay", "exploration",
-            "2-4 simulated threads on one real wire.Relay in a bubble, schedules through the relay/receiver yield hooks; distribution invariants + porcupine linearizability against a sequential relay model; race-detector pass with real parallelism",
+            "2-4 simulated threads on one real wire.Relay in a bubble, schedules through the relay/receiver yield points (hand-placed hooks plus automatically injected ones at the lock boundaries of a scratch copy); distribution invariants + porcupine linearizability against a sequential relay model; race-detector pass with real parallelism",
             "Programs of puts, subscribes, cache enable/release and consumer closes with overlapping predicates run on 2-4 threads with keyed gaps and a buggify mask over 7 yield sites; after quiescence the final distribution must have no duplicate, no predicate violation and no unaccounted envelope, and the stamped history must be linearizable (porcupine) against a sequential reference relay. The same engine is rebuilt with -race and run with GOMAXPROCS>1, including bursts of unsynchronised concurrent puts; any data race in wire/relay.go, cache.go or receiver.go is a violation.",
             "A cooperative scheduler cannot split a single append; unsynchronised conflicting accesses are therefore left to the happens-before race detector. Race-mode runs do not replay instruction for instruction.",
             "6/C18"),
